@@ -1280,7 +1280,7 @@ func c08Run(in *bufio.Scanner, w *bufio.Writer) {
 				// query from several goroutines at once — every one of them must see what a lone
 				// caller sees (GetOrBuildBucket's concurrent-first-caller contract).
 				concDiff := ""
-				if g != nil && c08NewPath(seenPaths, f[8]) && from == 0 && limit == 0 {
+				if g != nil && c08NewPath(seenPaths, f[8]) && from == 0 && limit == 0 && max == 0 { // (a cut through equal sort values is anybody's choice)
 					// build the ordered index first, alone: buildBeacon itself is not safe for concurrent
 					// first readers (a second reader sees `initialized` before the slice is filled), which
 					// is not this property's subject
